@@ -937,6 +937,13 @@ mutp("C17", "seeded_c17d_read_budget_drops_message", "a per-frame read budget is
 mutp("C18", "seeded_c18d_rules_prefiltered_by_priority", "rules with a priority above the archetype's component count are skipped before matches() (seeded change c18d)",
      ["C18.R4/scene::replicate_into/all-rules-in-order"], "seeded/c18d/patch.diff")
 
+mutp("C05", "seeded_c05e_shared_scratch_buffer_not_cleared_on_error", "client events are serialised into one scratch buffer that is not cleared when an event is refused (seeded change c05e)",
+     ["C05.R4/send_typed/fresh-buffer-per-event"], "seeded/c05e/patch.diff")
+mutp("C01", "seeded_c01e_old_mutate_messages_skipped_by_update_tick", "a buffered mutate message older than the client's update tick is acknowledged without being applied (seeded change c01e)",
+     ["C01.R4/client/every-consumed-message-applied"], "seeded/c01e/patch.diff")
+mutp("C03", "seeded_c03e_removals_collected_on_tick_frames_only", "buffer_removals runs only on tick frames (seeded change c03e)",
+     ["C03.R12/buffer_removals/every-frame-before-replication"], "seeded/c03e/patch.diff")
+
 # first-sight completeness (shared rule: C07.R6 / C03.R7 / C08.R6)
 mut("C07", "seeded_c07a_rate_limited_components_skipped", "rate-limited components are skipped before the per-client pass unless just added (late-authorized clients never get them)", ["C07.R6/collect_changes/every-component-reaches-clients"],
     ("src/server.rs", """                let ctx = SerializeCtx {
@@ -1681,5 +1688,22 @@ benign("despawn_unmaps_by_key_then_despawns", "apply_despawn removes the mapping
     let ctx = DespawnCtx { message_tick };
     (params.registry.despawn)(&ctx, client_entity);
 """))
+
+benign("client_events_scratch_buffer_cleared_first", "client events are serialised into one scratch buffer that is cleared at the top of every iteration",
+    ("src/shared/event/client_event.rs", """        for event in reader.read(events) {
+            let mut message = Vec::new();
+            if let Err(e) = unsafe { self.serialize::<E, I>(ctx, event, &mut message) } {""", """        let mut message = Vec::new();
+        for event in reader.read(events) {
+            message.clear();
+            if let Err(e) = unsafe { self.serialize::<E, I>(ctx, event, &mut message) } {"""),
+    ("src/shared/event/client_event.rs", """            client.send(self.channel_id, message);
+        }
+    }
+
+    /// Receives events from a client.""", """            client.send(self.channel_id, message.clone());
+        }
+    }
+
+    /// Receives events from a client."""))
 
 BENIGN = B
